@@ -185,6 +185,24 @@ func check(c Case) (kind, what string, nt bool) {
 	return "", "", nt
 }
 
+// otherWork: what else an application does with the library between conversions - adaptations between the same
+// chromaticities at other luminances (whites given on a 0..100 scale, a dimmed white, one left at zero), Lab
+// conversions, a custom space's matrices.  Answers are ignored; the pipeline's results must not depend on them.
+func otherWork(i int) {
+	lums := []float32{100, 0.5, 0, 2, 1e-3}
+	ws := []ciexyy.Color{ciexyy.D65, ciexyy.D50}
+	ev.Guard(func() {
+		a, b := ws[i%2], ws[(i+1)%2]
+		a.YY = lums[i%len(lums)]
+		ciexyz.AdaptBetweenXYYWhitePoints(a, b).Apply(ciexyz.Color{X: 0.3, Y: 0.4, Z: 0.5})
+		b.YY = lums[(i+2)%len(lums)]
+		ciexyz.AdaptBetweenXYYWhitePoints(ws[i%2], b)
+		ciexyz.AdaptBetweenXYZWhitePoints(ciexyz.Color{X: 95.047, Y: 100, Z: 108.883}, ciexyz.D50)
+		ciexyz.Color{X: 0.2, Y: 0.3, Z: 0.1}.ToLAB(ciexyz.D50)
+		ciexyz.TransformToXYZForXYYPrimaries(ciexyy.Color{X: 0.7, Y: 0.29, YY: 1}, ciexyy.Color{X: 0.2, Y: 0.7, YY: 1}, ciexyy.Color{X: 0.14, Y: 0.05, YY: 1}, ciexyy.D50)
+	})
+}
+
 func viaNote(v string) string {
 	if v == "" {
 		return ""
@@ -210,6 +228,7 @@ func TestC04(t *testing.T) {
 		// little of each and ask again (state carried from one conversion to the next)
 		for i := range sp.Spaces {
 			for j := range sp.Spaces {
+				otherWork(i*4 + j)
 				for _, via := range append([]string{""}, vias...) {
 					check(Case{Src: sp.Spaces[i].Name, Dst: sp.Spaces[j].Name, R: 10, G: 200, B: 90, A: 255, Via: via})
 				}
@@ -229,6 +248,7 @@ func TestC04(t *testing.T) {
 		for di := range sp.Spaces {
 			s, d := &sp.Spaces[si], &sp.Spaces[di]
 			pair := s.Name + "->" + d.Name
+			otherWork(si*4 + di)
 			var bad int32
 			var nts, evals int64
 			run := func(c Case) {
